@@ -17,6 +17,10 @@ CHECKS = {
                 text="For each of 15 copy routes, every mutation of a 14-entry menu applied to either side, and all values of the symbolic fields (charge incl. 0, multiplicity, label None/empty/non-empty, attribute value, partial-charge rows incl. all-zero): the copy equals the source in every observable field of its class, atoms/bonds report the copy as parent with correct indices, and a deep snapshot of the untouched side is unchanged. pickle/deepcopy/concatenate run on concrete field values (C code).",
                 note="Bounded: one 3-atom source (and its 2-conformer ensemble), one mutation after the copy; pickle and deepcopy are exercised with selectors only. Shallow copy.copy is outside the property.",
                 design="3/C06"),
+    "C14": dict(engine="XH+SHP", technique="CrossHair symbolic execution of the real ConformerEnsemble/Conformer code on a shape-level numpy model with symbolic extents (n_conformers up to 1000), plus real-numpy content scenarios; z3 decides each path",
+                text="One inductive step from an arbitrary rectangular state: for every constructor branch, each of 14 operations, all n_conformers in [0,1000] (symbolic, linear integer arithmetic over array extents), n_atoms 0..3 and every conformer index, the three parallel arrays keep matching extents and every conformer view reads coordinates and charges. On real numpy (extents <= 3): writes through a conformer change row i only, iteration (nested, interleaved, suspended) visits each conformer once in order, grown ensembles dump and serialise.",
+                note="The shape model (engine/shapenp.py) is validated against numpy on ~10k concrete shape cases per run; array *content* is only checked at concrete small extents; a symbolic conformer index bypasses __getitem__'s match statement (CrossHair artefact) and constructs the Conformer directly.",
+                design="3/C14"),
     "C02": dict(engine="XH", technique="CrossHair symbolic execution (z3 per path) of UKVFile/Collection on pure-Python file/struct/dict models, symbolic bytes, buffer size, stale-prefix and operation selectors",
                 text="Every CrossHair condition is 'Confirmed over all paths' inside the bound (<=3 records, keys 1-2 B + 255/256 B, values <=2-3 B, bufsize in [-1,200], <=3 handles, <=3 sessions): one operation from every stale-handle state, failed operations leave file and views unchanged, headers preserved, listed keys readable in-session, 2-handle session histories. Bounded symbolic verification, not a proof for larger files.",
                 note="Trusts CrossHair+z3 and the PyStruct/MemStream/FakePath/AssocDict/RWLock models (differentially validated against struct, real files and dict on every run); counterexamples are replayed with real struct, files and fasteners before being reported.",
@@ -41,6 +45,7 @@ m = {
               "source_commits": [], "add_only": True},
     "engines": [
         {"name": "XH", "path": "engine/xh.py", "serves_properties": sorted(k for k, v in CHECKS.items() if "XH" in v["engine"]), "kind_free_text": XH},
+        {"name": "SHP", "path": "engine/shapenp.py", "serves_properties": ["C14"], "kind_free_text": "shape-level numpy model (arrays = symbolic shape tuples) under CrossHair, differentially validated against numpy each run"},
         {"name": "SR", "path": "engine/sr.py", "serves_properties": sorted(k for k, v in CHECKS.items() if "SR" in v["engine"]),
          "kind_free_text": "symbolic-real execution of molli's numeric functions on numpy object arrays of z3 Real terms; per-component QF_NRA queries, hard-killed workers, numeric replay"},
     ],
